@@ -646,4 +646,117 @@ Section Sim.
     - destruct (lower_args_simple n0 t mask fuel s Ha args Hwf) as [la [El _]]. rewrite El in Hl. cbn [app map rev] in Hl. eapply Hone. exact Hl.
     - destruct e; try discriminate. unfold need, instr, ret in Hl. destruct (avail KInterrupt); [|discriminate]. eapply Hone. exact Hl.
   Qed.
+
+  Notation lower_body := (lower_body avail auto_casts rty lty).
+  Notation sblk := (sblk T libm rty lty diff dsel true).
+  Notation sprog := (sprog T libm rty lty diff dsel true).
+  Notation wprog := (wprog T libm lty dsel).
+
+  Definition wf_body (n0 : nat) (body : list (Z * Z * sstmt)) : Prop :=
+    Forall (fun x => wf_stmt n0 (snd x) /\ runs dsel (snd (fst x)) = true) body.
+  Definition mode_user (md : mode) : Prop := match md with Exec => True | Seek l _ => user l end.
+
+  Lemma lower_body_cons fuel t mask stmt rest s code s' :
+    lower_body fuel ((t, mask, stmt) :: rest) s = Ok (code, s') ->
+    exists c1 s1 c2, lower_stmt t mask fuel stmt s = Ok (c1, s1) /\ lower_body fuel rest s1 = Ok (c2, s') /\ code = c1 ++ c2.
+  Proof.
+    cbn [LowerProg.lower_body]. destruct (lower_stmt t mask fuel stmt s) as [[c1 s1]| | |] eqn:E1; try discriminate.
+    destruct (lower_body fuel rest s1) as [[c2 s2]| | |] eqn:E2; try discriminate. intros H. inversion H; subst.
+    exists c1, s1, c2. split; [reflexivity|]. split; [exact E2 | reflexivity].
+  Qed.
+
+  (* one pass over the body (from any statement boundary, executing or seeking a user label) *)
+  Lemma body_sim n0 fuel : forall body s code s', lower_body fuel body s = Ok (code, s') -> wf_body n0 body ->
+    (n0 <= g s)%nat -> te_agree n0 [] (te s) ->
+    forall md st md' st', mode_user md -> fresh (p_mem st) n0 -> sblk body md st = Ok (md', st') ->
+    (forall cmp, exists c', wblk code md st cmp = Ok (md', st', c')) /\ fresh (p_mem st') n0 /\ mode_user md'.
+  Proof.
+    induction body as [|[[t mask] stmt] rest IH]; intros s code s' Hl Hwf Hn Ha md st md' st' Hmd Hfr Hs.
+    - cbn in Hl. inversion Hl; subst. cbn in Hs. inversion Hs; subst. split; [|split; assumption].
+      intros cmp. exists cmp. reflexivity.
+    - destruct (lower_body_cons fuel t mask stmt rest s code s' Hl) as [c1 [s1 [c2 [Hl1 [Hl2 ->]]]]].
+      pose proof (Forall_inv Hwf) as [Hw1 Hr1]. cbn [fst snd] in Hw1, Hr1. pose proof (Forall_inv_tail Hwf) as Hwf'.
+      destruct (stmt_shape n0 t mask fuel stmt s c1 s1 Hl1 Hw1 Ha) as [G [A [N L]]].
+      assert (Hn1 : (n0 <= g s1)%nat) by lia.
+      assert (Ha1 : te_agree n0 [] (te s1)).
+      { intros d Hd. rewrite (A d) by lia. apply Ha. exact Hd. }
+      cbn [LowerProg.sblk] in Hs.
+      destruct md as [|l jt].
+      + (* executing *)
+        cbn [andb] in Hs. destruct (Z.ltb_spec t (p_time st)) as [Hlt|Hle]; [discriminate|].
+        rewrite Hr1 in Hs. cbn [negb] in Hs.
+        destruct (stmt_nonan T libm rty lty diff stmt (p_mem (wait t st))) eqn:Hnn; cbn [negb] in Hs; [|discriminate].
+        destruct (sstep stmt (p_mem (wait t st))) as [[[m' j] lg]| | |] eqn:Est; try discriminate.
+        assert (Hfs : fresh (p_mem st) (g s)) by (eapply fresh_mono; eassumption).
+        destruct (stmt_sim n0 t mask fuel stmt s c1 s1 st m' j lg Hr1 Hl1 Hw1 Hn Ha Hfs Hle Hnn Est) as [Hrun _].
+        assert (Hfr' : fresh (p_mem (logged lg (set_mem (wait t st) m'))) n0).
+        { rewrite logged_mem. cbn [p_mem set_mem]. eapply sstep_fresh; [exact Hw1| |exact Est]. rewrite wait_mem. exact Hfr. }
+        assert (Hmd' : mode_user (mode_of j)).
+        { destruct j as [[l jt]|]; [|exact I]. cbn. eapply sstep_jump_user; eassumption. }
+        destruct (IH s1 c2 s' Hl2 Hwf' Hn1 Ha1 _ _ md' st' Hmd' Hfr' Hs) as [Hrest [Hf' Hm']].
+        split; [|split; assumption].
+        intros cmp. rewrite wblk_app. destruct (Hrun cmp) as [c' E]. rewrite E. apply Hrest.
+      + (* seeking the user label l *)
+        cbn [mode_user] in Hmd.
+        assert (Hskip : forall c1', (forall m, fresh m (g s) -> seek_mem lty c1' m = m) -> Forall (not_label l) c1' ->
+                  forall cmp, wblk c1' (Seek l jt) st cmp = Ok (Seek l jt, st, cmp)).
+        { intros c1' N' L' cmp. rewrite (wblk_seek T libm lty dsel l jt c1' st cmp L').
+          rewrite N' by (eapply fresh_mono; eassumption). rewrite set_mem_id. reflexivity. }
+        assert (Hother : sblk rest (Seek l jt) st = Ok (md', st') -> labels_in (g s) (g s1) c1 ->
+                  (forall cmp, exists c', wblk (c1 ++ c2) (Seek l jt) st cmp = Ok (md', st', c')) /\ fresh (p_mem st') n0 /\ mode_user md').
+        { intros Hs' L'.
+          destruct (IH s1 c2 s' Hl2 Hwf' Hn1 Ha1 (Seek l jt) st md' st' Hmd Hfr Hs') as [Hrest [Hf' Hm']].
+          split; [|split; assumption]. intros cmp. rewrite wblk_app.
+          rewrite (Hskip c1 N (labels_in_not_user _ _ _ _ L' Hmd) cmp). apply Hrest. }
+        destruct stmt as [v aop e|ty0 vars|k c l0 jt0|l0 jt0|l0|opc args|d|e|]; try (apply Hother; assumption).
+        subst c1. destruct (label_eqb l l0) eqn:E.
+        * assert (Hfr' : fresh (p_mem (arrive t jt st)) n0) by (rewrite arrive_mem; exact Hfr).
+          destruct (IH s1 c2 s' Hl2 Hwf' Hn1 Ha1 Exec (arrive t jt st) md' st' I Hfr' Hs) as [Hrest [Hf' Hm']].
+          split; [|split; assumption]. intros cmp. rewrite wblk_app. cbn [LowerProg.wblk]. rewrite E. apply Hrest.
+        * destruct (IH s1 c2 s' Hl2 Hwf' Hn1 Ha1 (Seek l jt) st md' st' Hmd Hfr Hs) as [Hrest [Hf' Hm']].
+          split; [|split; assumption]. intros cmp. rewrite wblk_app. cbn [LowerProg.wblk]. rewrite E. apply Hrest.
+  Qed.
+
+  Lemma labels_in_no_user lo hi code l : labels_in lo hi code -> user l -> existsb (is_llabel l) code = false.
+  Proof.
+    intros H Hu. induction code as [|x code IH]; [reflexivity|].
+    pose proof (Forall_inv H) as Hx. cbn [existsb]. rewrite (IH (Forall_inv_tail H)). rewrite Bool.orb_false_r.
+    destruct x; try reflexivity. cbn in *. destruct l0; [contradiction|]. destruct l; [reflexivity | contradiction].
+  Qed.
+
+  Lemma label_exists n0 fuel l : user l -> forall body s code s', lower_body fuel body s = Ok (code, s') -> wf_body n0 body ->
+    te_agree n0 [] (te s) -> (n0 <= g s)%nat ->
+    existsb (is_slabel l) body = existsb (is_llabel l) code.
+  Proof.
+    intros Hu. induction body as [|[[t mask] stmt] rest IH]; intros s code s' Hl Hwf Ha Hn.
+    - cbn in Hl. inversion Hl. reflexivity.
+    - destruct (lower_body_cons fuel t mask stmt rest s code s' Hl) as [c1 [s1 [c2 [Hl1 [Hl2 ->]]]]].
+      pose proof (Forall_inv Hwf) as [Hw1 Hr1]. cbn [fst snd] in Hw1, Hr1. pose proof (Forall_inv_tail Hwf) as Hwf'.
+      destruct (stmt_shape n0 t mask fuel stmt s c1 s1 Hl1 Hw1 Ha) as [G [A [N L]]].
+      assert (Ha1 : te_agree n0 [] (te s1)).
+      { intros d Hd. rewrite (A d) by lia. apply Ha. exact Hd. }
+      cbn [existsb]. rewrite existsb_app. rewrite (IH s1 c2 s' Hl2 Hwf' Ha1) by lia. f_equal.
+      unfold is_slabel. cbn [snd].
+      destruct stmt; try (symmetry; eapply labels_in_no_user; eassumption).
+      subst c1. cbn. rewrite Bool.orb_false_r. reflexivity.
+  Qed.
+
+  (* whole runs, re-entering the body for every jump that leaves it *)
+  Theorem prog_sim n0 fuel body code s' :
+    lower_body fuel body (mklst n0 []) = Ok (code, s') -> wf_body n0 body ->
+    forall fs md st cmp st', mode_user md -> fresh (p_mem st) n0 ->
+    sprog fs body md st = Ok st' -> wprog fs code md st cmp = Ok st'.
+  Proof.
+    intros Hl Hwf. induction fs as [|fs IH]; intros md st cmp st' Hmd Hfr Hs; [discriminate|].
+    cbn [LowerProg.sprog] in Hs. cbn [LowerProg.wprog].
+    destruct (sblk body md st) as [[md1 st1]| | |] eqn:Eb; try discriminate.
+    destruct (body_sim n0 fuel body (mklst n0 []) code s' Hl Hwf (le_n _) (te_agree_refl_ n0 []) md st md1 st1 Hmd Hfr Eb)
+      as [Hrun [Hf1 Hm1]].
+    destruct (Hrun cmp) as [c' E]. rewrite E.
+    destruct md1 as [|l jt]; [exact Hs|].
+    cbn [mode_user] in Hm1.
+    rewrite <- (label_exists n0 fuel l Hm1 body (mklst n0 []) code s' Hl Hwf (te_agree_refl_ n0 []) (le_n _)).
+    destruct (existsb (is_slabel l) body); [|discriminate].
+    apply IH; assumption.
+  Qed.
 End Sim.
